@@ -105,6 +105,8 @@ type fnState struct {
 	params    map[string]SV
 	results   []string // result names
 	retSeen   int
+	inlining  int // depth of inlined calls
+	inlineRet *SV // result captured from an inlined callee return
 	strLits   map[string]string
 	notes     map[string]bool
 	rangeIt   map[ssa.Value]string // Range instr -> cell key of its position
@@ -285,7 +287,13 @@ func (f *fnState) markModified(key string) {
 	}
 }
 
-func localKey(a *ssa.Alloc) string { return "L:" + a.Name() + ":" + a.Comment }
+func localKey(a *ssa.Alloc) string {
+	fn := ""
+	if a.Parent() != nil {
+		fn = a.Parent().Name()
+	}
+	return "L:" + fn + "." + a.Name() + ":" + a.Comment
+}
 
 // ---- block structure -------------------------------------------------------
 
@@ -800,8 +808,10 @@ func (f *fnState) contractMentionsNil(name string) bool {
 	return false
 }
 
-func (f *fnState) classifyAllocs() {
-	for _, b := range f.fn.Blocks {
+func (f *fnState) classifyAllocs() { f.classifyAllocsOf(f.fn) }
+
+func (f *fnState) classifyAllocsOf(fn *ssa.Function) {
+	for _, b := range fn.Blocks {
 		for _, ins := range b.Instrs {
 			a, ok := ins.(*ssa.Alloc)
 			if !ok {
